@@ -61,7 +61,7 @@ def run(chk):
     chk.trusted_base = TRUSTED
     chk.rule = ("op sched: 8 inputs per repetition (1D/2D/3D, periodic or not, lattice and on-boundary families that take the exact path, random masks; up to several thousand generators in thorough): "
                 "cells, faces in order, connectivity array, cell/face integral vectors (with and without data, sym and non-sym), with_faces route; serialised bit patterns must be identical for pools of 1,2,3,5,8,16,64 threads, "
-                "repeated runs, jitter seeds that perturb completion order, the global pool, and the build without the rayon feature; op schedtag (downstream crate): cell / face / sym-face integrals WITH per-cell data 1000+i under pools of 1,2,3,4,5,8,16 threads must be identical; non-trivial = input with >= 50 generators; distinct by (input, configuration)")
+                "repeated runs, jitter seeds that perturb completion order, the global pool, fresh pools that first build OTHER inputs (contracted copy of the same generators around one of them, that cell alone, periodic builds of other dimensionalities) - history independence -, and the build without the rayon feature (fresh thread vs after other builds); op schedtag (downstream crate): cell / face / sym-face integrals WITH per-cell data 1000+i under pools of 1,2,3,4,5,8,16 threads must be identical; non-trivial = input with >= 50 generators; distinct by (input, configuration)")
     chk.lean(['MVoro.Props.C09', 'MVoro.Proofs.Misc'], ['MVoro.Obl.Par'], ['Par'])
     got = run_cells_op(chk, op='sched', features='ibig,rayon')
     if got is None:
@@ -95,8 +95,11 @@ def run(chk):
         else:
             if s.inp != r.inp:
                 chk.violation('harness', 'sequential harness generated a different input for record %d' % r.id, None)
+            elif 'HASHES' in s.res and s.res[s.res.index('HASHES') + 2] != s.res[2]:
+                chk.violation('impl-vs-impl', 'sequential build (no rayon): the result depends on what the thread built before (fresh thread %s, after other builds %s) (record %d, %s, %d generators)'
+                              % (s.res[2], s.res[s.res.index('HASHES') + 2], r.id, r.family, n), dict(rp, configuration='no-rayon after-other-builds'), key='history')
             elif s.res[2] != base:
-                sfull = s.res[4:]
+                sfull = s.res[4:s.res.index('HASHES')] if 'HASHES' in s.res else s.res[4:]
                 k = next((i for i in range(min(len(full), len(sfull))) if full[i] != sfull[i]), -1)
                 chk.violation('impl-vs-impl', 'result differs between the rayon build and the sequential build without the parallel feature (record %d, %s, %d generators, first differing token %d: %s vs %s)'
                               % (r.id, r.family, n, k, full[k] if 0 <= k < len(full) else '-', sfull[k] if 0 <= k < len(sfull) else '-'), dict(rp, configuration='no-rayon'), key='no-rayon')
